@@ -278,15 +278,15 @@ func (r *queryRun) step(st h.Step) map[string]interface{} {
 	// positive wait for the place the model expects the loop to be in (bounded: the model may be wrong)
 	switch st.Str("pc") {
 	case "gate":
-		if !r.hasDone() {
+		if !r.done && !r.hasDone() {
 			r.awaitGate(2 * time.Second)
 		}
 	case "sel":
-		poll(2*time.Second, func() bool { return loopState() == "select" || r.qframes() > 0 })
+		poll(2*time.Second, func() bool { return r.done || loopState() == "select" || r.qframes() > 0 })
 	case "send":
 		poll(2*time.Second, func() bool { return loopState() == "send" })
 	case "end":
-		poll(2*time.Second, func() bool { return r.hasDone() })
+		poll(2*time.Second, func() bool { return r.done || r.hasDone() })
 	}
 	// the step must be over well before the query's real deadline, otherwise the schedule's order of
 	// "expire" relative to the other steps is not the one that was executed: the attempt is repeated
